@@ -31,6 +31,13 @@ def runOp (line : String) : String :=
       else if op == "N2" then opD2 L vec true
       else (runOpExt f).getD "bad-op"
     | _, _ => (runOpExt f).getD "bad-op"
+  | [op, l, h1, h2] =>
+    match levelOf l, ofHex h1, ofHex h2 with
+    | some L, some pre, some vec =>
+      if op == "RD3" then opRD3 L pre vec
+      else if op == "RD2" then opRD2 L pre vec
+      else (runOpExt f).getD "bad-op"
+    | _, _, _ => (runOpExt f).getD "bad-op"
   | _ => (runOpExt f).getD "bad-op"
 
 partial def loop (hin : IO.FS.Stream) (hout : IO.FS.Stream) : IO Unit := do
